@@ -16,11 +16,27 @@ NAME = 'Effects'
 
 MODULES = ['Numerics.py', 'Spectrum_mod.py', 'LowPass/LowPass.py', 'Integration.py', 'PhiManip.py', 'Inference.py',
            'Misc.py', 'Godambe.py']
-ALIASING_METHODS = {'ravel', 'reshape', 'transpose', 'view', 'swapaxes', 'squeeze', 'filled'}   # may return views
-ALIASING_FUNCS = {'numpy.asarray', 'np.asarray', 'numpy.asanyarray', 'numpy.ascontiguousarray_maybe', 'numpy.ma.asarray', 'numpy.atleast_1d'}
+ALIASING_METHODS = {'ravel', 'reshape', 'transpose', 'view', 'swapaxes', 'squeeze', 'filled', 'diagonal', 'astype_nocopy', '__array__'}   # may return views
+# functions of numpy that return their (first) argument itself, or a view of it, for at least some argument types
+_ALIASING_NUMPY = {'asarray', 'asanyarray', 'ascontiguousarray', 'asfortranarray', 'asfarray', 'asarray_chkfinite', 'atleast_1d', 'atleast_2d',
+                   'atleast_3d', 'ravel', 'reshape', 'transpose', 'squeeze', 'swapaxes', 'moveaxis', 'rollaxis', 'expand_dims', 'broadcast_to',
+                   'flip', 'flipud', 'fliplr', 'diagonal', 'real', 'imag', 'require',
+                   'ma.asarray', 'ma.asanyarray', 'ma.getdata', 'ma.getmask', 'ma.getmaskarray', 'ma.filled', 'ma.ravel', 'ma.reshape',
+                   'ma.transpose', 'ma.squeeze', 'ma.swapaxes'}
+# constructors that copy unless told otherwise (`copy=` keyword): `numpy.array(x, copy=False/None)` aliases; the masked-array
+# constructors alias by DEFAULT (copy=False) and copy only with copy=True; `Spectrum(x, data_copy=False)` aliases
+_COPY_BY_DEFAULT = {'array'}
+_ALIAS_BY_DEFAULT = {'ma.masked_array', 'ma.array', 'ma.MaskedArray', 'ma.masked_invalid_nocopy'}
 MUTATING_METHODS = {'sort', 'append', 'extend', 'insert', 'pop', 'remove', 'fill', 'put', 'itemset', 'resize', 'clear', 'update',
-                    'reverse', 'setdefault', 'mask_corners', 'unmask_all', 'setflags', '__setitem__', '__iadd__', '__isub__', '__imul__'}
+                    'reverse', 'setdefault', 'mask_corners', 'unmask_all', 'setflags', '__setitem__', '__iadd__', '__isub__', '__imul__',
+                    'partition', 'byteswap_inplace', 'harden_mask', 'soften_mask', 'popitem', 'discard', 'add'}
 INPLACE_KERNEL = re.compile(r'^(int_c\.implicit_\w+|_inject_mutations_\w+|tridiag\.tridiag_inplace)$')
+# numpy functions that write into an argument: (name, index of the written argument or keyword)
+_WRITING_NUMPY = {'copyto': 0, 'put': 0, 'place': 0, 'putmask': 0, 'fill_diagonal': 0, 'put_along_axis': 0, 'random.shuffle': 0}
+
+# `Spectrum.S` masks the corners and restores the saved mask before returning (tabled as an exemption in Props/C20.lean and
+# watched byte-for-byte at run time): callers of S are not charged with that temporary change
+NON_PROPAGATING = {'self.S'}
 
 def names_in(node):
     return {n.id for n in ast.walk(node) if isinstance(n, ast.Name)}
@@ -31,76 +47,234 @@ def base_name(node):
         node = node.value
     return node.id if isinstance(node, ast.Name) else None
 
-def is_alias_expr(e, A):
-    """expression that may alias an object whose name is in A"""
+def numpy_name(fn):
+    """'numpy.ma.asarray' / 'np.ma.asarray' -> 'ma.asarray'; None if not a numpy function"""
+    if not fn: return None
+    for pre in ('numpy.', 'np.'):
+        if fn.startswith(pre): return fn[len(pre):]
+    return None
+
+def _kw(call, name):
+    for k in call.keywords:
+        if k.arg == name: return k.value
+    return None
+
+def alias_roots(e, A):
+    """set of parameters (roots) that the value of expression `e` may alias; A : name -> set of roots"""
     if isinstance(e, ast.Name):
-        return e.id in A
+        return set(A.get(e.id, ()))
     if isinstance(e, (ast.Subscript, ast.Attribute)):
         b = base_name(e)
-        return b in A
+        return set(A.get(b, ())) if b else set()
+    if isinstance(e, ast.Starred):
+        return alias_roots(e.value, A)
     if isinstance(e, ast.Call):
         fn = T.callee_name(e.func)
         if isinstance(e.func, ast.Attribute) and e.func.attr in ALIASING_METHODS and base_name(e.func.value) in A:
-            return True
-        if fn in ALIASING_FUNCS and e.args and is_alias_expr(e.args[0], A):
-            return True
-        if fn and INPLACE_KERNEL.match(fn) and e.args and is_alias_expr(e.args[0], A):
-            return True          # the kernels return their first argument
+            return set(A[base_name(e.func.value)])
+        nn = numpy_name(fn)
+        first = e.args[0] if e.args else None
+        if nn in _ALIASING_NUMPY and first is not None:
+            return alias_roots(first, A)
+        if nn in _COPY_BY_DEFAULT and first is not None:
+            c = _kw(e, 'copy')
+            if c is not None and not (isinstance(c, ast.Constant) and c.value is True):
+                return alias_roots(first, A)
+            return set()
+        if nn in _ALIAS_BY_DEFAULT and first is not None:
+            c = _kw(e, 'copy')
+            if c is not None and isinstance(c, ast.Constant) and c.value is True:
+                return set()
+            return alias_roots(first, A)
+        if fn in ('Spectrum', 'Spectrum_mod.Spectrum', 'dadi.Spectrum') and first is not None:
+            c = _kw(e, 'data_copy')
+            if c is not None and not (isinstance(c, ast.Constant) and c.value is True):
+                return alias_roots(first, A)
+            return set()
+        if fn and INPLACE_KERNEL.match(fn) and first is not None:
+            return alias_roots(first, A)          # the kernels return their first argument
+        return set()
     if isinstance(e, ast.IfExp):
-        return is_alias_expr(e.body, A) or is_alias_expr(e.orelse, A)
+        return alias_roots(e.body, A) | alias_roots(e.orelse, A)
+    if isinstance(e, ast.BoolOp):
+        out = set()
+        for v in e.values: out |= alias_roots(v, A)
+        return out
     if isinstance(e, ast.Tuple):
-        return any(is_alias_expr(x, A) for x in e.elts)
-    return False
+        # (a tuple cannot itself be modified; it is tracked so that `return phi, xx` counts as returning an alias.  A list / dict
+        #  literal is a fresh container: appending to it modifies no argument)
+        out = set()
+        for x in e.elts: out |= alias_roots(x, A)
+        return out
+    if isinstance(e, ast.NamedExpr):
+        return alias_roots(e.value, A)
+    return set()
 
-def analyse(fn):
-    params = [a.arg for a in fn.args.args + fn.args.kwonlyargs]
-    if fn.args.vararg: params.append(fn.args.vararg.arg)
-    A = set(params)
-    muts = []; ret_alias = []
+def is_alias_expr(e, A):
+    return bool(alias_roots(e, A if isinstance(A, dict) else {a: {a} for a in A}))
+
+def param_names(fn):
+    a = fn.args
+    ps = [x.arg for x in getattr(a, 'posonlyargs', []) + a.args]
+    allp = ps + [x.arg for x in a.kwonlyargs]
+    if a.vararg: allp.append(a.vararg.arg)
+    if a.kwarg: allp.append(a.kwarg.arg)
+    return ps, allp
+
+def analyse(fn, summaries=None, outer=None, qual=None, nested_out=None):
+    """effect summary of one function.
+    summaries : {callee name as written at the call site: (positional parameter names, set of parameters it may modify)}
+                (interprocedural step: passing an alias of an argument to a parameter the callee modifies is a modification);
+    outer     : alias map of the enclosing function (closure variables of a nested function alias what they alias outside);
+    nested_out: list receiving (qualified name, params, events, returned aliases) of nested functions.
+    Returns (params, mutation events, returned aliases, set of roots — own parameters or, for a nested function, parameters
+    of an enclosing function reached through a closure variable — that may be modified)."""
+    pos, params = param_names(fn)
+    A = {k: set(v) for k, v in (outer or {}).items()}
+    for p_ in params: A[p_] = {p_}
+    # `**kwargs` is a dictionary created by the call: deleting / storing its entries modifies nothing of the caller's
+    fresh_dict = fn.args.kwarg.arg if fn.args.kwarg else None
+    # parameters whose default is a number / bool / string are scalars: `t += dt` on a plain name bound to one rebinds the name
+    scalars = set()
+    a_ = fn.args
+    for nm, d in list(zip([x.arg for x in (getattr(a_, 'posonlyargs', []) + a_.args)][::-1], a_.defaults[::-1])) + [(x.arg, d) for x, d in zip(a_.kwonlyargs, a_.kw_defaults) if d is not None]:
+        if isinstance(d, ast.Constant) and isinstance(d.value, (int, float, bool, str)) and d.value is not None:
+            scalars.add(nm)
+        if isinstance(d, ast.UnaryOp) and isinstance(d.operand, ast.Constant) and isinstance(d.operand.value, (int, float)):
+            scalars.add(nm)
+    muts = []; ret_alias = []; mutated = set()
+    summ = dict(summaries or {})
+    def R(e): return alias_roots(e, A)
+    def event(lineno, text, roots):
+        muts.append('%d: %s' % (lineno, text)); mutated.update(roots)
+    def scan_calls(s):
+        stack = [s]
+        while stack:
+            node = stack.pop()
+            for ch in ast.iter_child_nodes(node):
+                if isinstance(ch, (ast.FunctionDef, ast.AsyncFunctionDef, ast.ClassDef)): continue
+                stack.append(ch)
+            if not isinstance(node, ast.Call): continue
+            fnm = T.callee_name(node.func)
+            if fnm and INPLACE_KERNEL.match(fnm) and node.args and R(node.args[0]):
+                event(node.lineno, '%s(%s, ...)' % (fnm, ast.unparse(node.args[0])), R(node.args[0]))
+            if isinstance(node.func, ast.Attribute) and node.func.attr in MUTATING_METHODS and A.get(base_name(node.func.value)) \
+               and not (isinstance(node.func.value, ast.Name) and node.func.value.id == fresh_dict):
+                event(node.lineno, ast.unparse(node.func), A[base_name(node.func.value)])
+            nn = numpy_name(fnm)
+            if nn in _WRITING_NUMPY and len(node.args) > _WRITING_NUMPY[nn] and R(node.args[_WRITING_NUMPY[nn]]):
+                event(node.lineno, '%s(%s, ...)' % (fnm, ast.unparse(node.args[_WRITING_NUMPY[nn]])), R(node.args[_WRITING_NUMPY[nn]]))
+            o = _kw(node, 'out')
+            if o is not None and R(o):
+                event(node.lineno, '%s(..., out=%s)' % (fnm, ast.unparse(o)), R(o))
+            if fnm in summ and fnm not in NON_PROPAGATING:
+                cpos, cmut = summ[fnm]
+                off = 0
+                if fnm.startswith('self.') and cpos and cpos[0] == 'self':
+                    off = 1
+                    if 'self' in cmut and A.get('self'):
+                        event(node.lineno, '%s() modifies self' % fnm, A['self'])
+                for i, a in enumerate(node.args):
+                    if isinstance(a, ast.Starred): break
+                    j = i + off
+                    if j < len(cpos) and cpos[j] in cmut and R(a):
+                        event(node.lineno, '%s(… %s …) modifies its parameter %s' % (fnm, ast.unparse(a)[:30], cpos[j]), R(a))
+                for k in node.keywords:
+                    if k.arg in cmut and R(k.value):
+                        event(node.lineno, '%s(… %s=%s …) modifies its parameter %s' % (fnm, k.arg, ast.unparse(k.value)[:30], k.arg), R(k.value))
+    def is_fresh_entry(t):
+        # kwargs[k] (one level): an entry of the call's own keyword dictionary
+        return isinstance(t, ast.Subscript) and isinstance(t.value, ast.Name) and t.value.id == fresh_dict
+    def own_exprs(s):
+        # only the statement's own expressions: bodies of compound statements are visited separately
+        if isinstance(s, (ast.For, ast.AsyncFor)): return [s.iter]
+        if isinstance(s, (ast.If, ast.While)): return [s.test]
+        if isinstance(s, (ast.With, ast.AsyncWith)): return [i.context_expr for i in s.items]
+        if isinstance(s, ast.Try): return []
+        return [s]
     def visit(stmts, top):
         for s in stmts:
+            if isinstance(s, (ast.FunctionDef, ast.AsyncFunctionDef)):
+                q = '%s.%s' % (qual or fn.name, s.name)
+                npar, nm, nr, nmut = analyse(s, summ, outer=A, qual=q, nested_out=nested_out)
+                if nested_out is not None: nested_out.append((q, npar, nm, nr))
+                own = set(param_names(s)[1])
+                for r in sorted(nmut - own):
+                    # a nested function that writes through a closure variable modifies the enclosing function's argument
+                    event(s.lineno, 'nested %s writes through the closure variable aliasing %s' % (s.name, r), {r})
+                summ[s.name] = (param_names(s)[0], nmut & own)
+                continue
+            if isinstance(s, ast.ClassDef):
+                continue
             # mutation events first (evaluated with the alias set before this statement's own rebinding)
-            for node in ast.walk(s) if not isinstance(s, (ast.FunctionDef, ast.ClassDef)) else []:
-                if isinstance(node, ast.Call):
-                    fnm = T.callee_name(node.func)
-                    if fnm and INPLACE_KERNEL.match(fnm) and node.args and is_alias_expr(node.args[0], A):
-                        muts.append('%d: %s(%s, ...)' % (node.lineno, fnm, ast.unparse(node.args[0])))
-                    if isinstance(node.func, ast.Attribute) and node.func.attr in MUTATING_METHODS and base_name(node.func.value) in A:
-                        muts.append('%d: %s' % (node.lineno, ast.unparse(node.func)))
+            for e in own_exprs(s): scan_calls(e)
             if isinstance(s, ast.AugAssign):
                 b = base_name(s.target)
-                if b in A:
-                    muts.append('%d: %s %s=' % (s.lineno, ast.unparse(s.target), type(s.op).__name__))
+                roots = set(A.get(b) or ())
+                if isinstance(s.target, ast.Name): roots -= scalars
+                if roots and not is_fresh_entry(s.target):
+                    event(s.lineno, '%s %s=' % (ast.unparse(s.target), type(s.op).__name__), roots)
             elif isinstance(s, (ast.Assign, ast.AnnAssign)):
                 targets = s.targets if isinstance(s, ast.Assign) else [s.target]
                 val = s.value
                 for t in targets:
-                    for tt in (t.elts if isinstance(t, ast.Tuple) else [t]):
+                    is_tup = isinstance(t, (ast.Tuple, ast.List))
+                    for tt in (t.elts if is_tup else [t]):
                         if isinstance(tt, (ast.Subscript, ast.Attribute)):
                             b = base_name(tt)
-                            if b in A:
-                                muts.append('%d: %s =' % (s.lineno, ast.unparse(tt)))
+                            if A.get(b) and not is_fresh_entry(tt):
+                                event(s.lineno, '%s =' % ast.unparse(tt), A[b])
                         elif isinstance(tt, ast.Name):
-                            if val is not None and is_alias_expr(val, A) and not isinstance(t, ast.Tuple):
-                                A.add(tt.id)
-                            elif top and not isinstance(t, ast.Tuple):
-                                A.discard(tt.id)
+                            r = R(val) if (val is not None and not is_tup) else set()
+                            if r:
+                                A[tt.id] = set(r) if top else (set(A.get(tt.id, set())) | r)
+                            elif top and not is_tup:
+                                A.pop(tt.id, None)
+            elif isinstance(s, ast.Delete):
+                for tt in s.targets:
+                    if isinstance(tt, ast.Subscript) and A.get(base_name(tt)) and not is_fresh_entry(tt):
+                        event(s.lineno, 'del %s' % ast.unparse(tt), A[base_name(tt)])
             elif isinstance(s, ast.Return):
-                if s.value is not None and is_alias_expr(s.value, A):
+                if s.value is not None and R(s.value):
                     ret_alias.append('%d: return %s' % (s.lineno, ast.unparse(s.value)[:40]))
-            elif isinstance(s, ast.For):
+            elif isinstance(s, (ast.For, ast.AsyncFor)):
                 # loop variable bound to elements: not an alias of the container for our purposes (scalars); bodies nested
                 visit(s.body, False); visit(s.orelse, False)
             elif isinstance(s, (ast.If, ast.While)):
                 visit(s.body, False); visit(s.orelse, False)
-            elif isinstance(s, ast.With):
+            elif isinstance(s, (ast.With, ast.AsyncWith)):
                 visit(s.body, False)
             elif isinstance(s, ast.Try):
                 visit(s.body, False)
                 for h in s.handlers: visit(h.body, False)
                 visit(s.orelse, False); visit(s.finalbody, False)
     visit(fn.body, True)
-    return params, muts, ret_alias
+    return params, muts, ret_alias, mutated
+
+def module_summaries(trees):
+    """{call-site name: (positional parameters, parameters possibly modified)} for every function of the audited modules, to a
+    fixpoint: bare name and `Module.name` / `dadi.Module.name` for module-level functions, `self.name` for methods of Spectrum"""
+    summ = {}
+    for _ in range(6):
+        new = {}
+        for rel, tree in trees:
+            mod = os.path.splitext(os.path.basename(rel))[0]
+            for n in tree.body:
+                if isinstance(n, ast.FunctionDef):
+                    _, _, _, mutated = analyse(n, summ)
+                    own = set(param_names(n)[1])
+                    val = (param_names(n)[0], mutated & own)
+                    for key in (n.name, '%s.%s' % (mod, n.name), 'dadi.%s.%s' % (mod, n.name)):
+                        if key == n.name and key in new: continue          # bare names: first module wins (same-module calls dominate)
+                        new[key] = val
+                elif isinstance(n, ast.ClassDef) and n.name == 'Spectrum':
+                    for m in n.body:
+                        if isinstance(m, ast.FunctionDef):
+                            _, _, _, mutated = analyse(m, summ)
+                            new['self.' + m.name] = (param_names(m)[0], mutated & set(param_names(m)[1]))
+        if new == summ: break
+        summ = new
+    return summ
 
 def cache_tables(path, rel, tree, src):
     """memo tables: module-level `NAME = {}` + a function storing `NAME[key] = value`.
@@ -238,8 +412,8 @@ def audited(rel, tree):
         want = {'perturb_params', 'ensure_1arg_func', 'delayed_flush'}
         out += [(n.name, n) for n in tree.body if isinstance(n, ast.FunctionDef) and n.name in want]
     elif rel == 'Godambe.py':
-        want = {'get_hess', 'get_grad', 'hessian_elem', 'get_godambe', 'GIM_uncert', 'FIM_uncert', 'LRT_adjust', 'Wald_stat', 'score_stat', 'sum_chi2_ppf'}
-        out += [(n.name, n) for n in tree.body if isinstance(n, ast.FunctionDef) and n.name in want]
+        # every function of the module (uncertainty calls and their finite-difference helpers); their inner functions are added by generate()
+        out += [(n.name, n) for n in tree.body if isinstance(n, ast.FunctionDef)]
     elif rel == 'Numerics.py':
         want = {'reverse_array', 'trapz', 'apply_anc_state_misid', 'make_extrap_func', 'multinomln', 'cached_part', 'cached_part_precalc', '_cached_projection'}
         out += [(n.name, n) for n in tree.body if isinstance(n, ast.FunctionDef) and n.name in want]
@@ -307,16 +481,23 @@ def generate():
     out.append('structure CacheInfo where\n  module : String\n  cache : String\n  fn : String\n  keyParams : List String\n  usedParams : List String\n  sufficient : Bool\n  memo : Bool\nderiving DecidableEq, Repr')
     out.append('structure EffectInfo where\n  module : String\n  fn : String\n  mutatesArg : Bool\n  returnsAlias : Bool\n  evidence : List String\nderiving DecidableEq, Repr')
     caches = []; effects = []
+    trees = []
     for rel in MODULES:
         path = os.path.join(T.REPO, 'dadi', rel)
         if not os.path.exists(path):
             raise T.TranslateError('module %s not found' % rel)
         src = open(path).read()
-        tree = ast.parse(src)
+        trees.append((rel, path, src, ast.parse(src)))
+    summ = module_summaries([(rel, tree) for rel, _, _, tree in trees])
+    for rel, path, src, tree in trees:
         caches += cache_tables(path, rel, tree, src)
         for qn, fn in audited(rel, tree):
-            params, muts, ra = analyse(fn)
+            nested = []
+            params, muts, ra, _ = analyse(fn, summ, qual=qn, nested_out=nested)
             effects.append(dict(module=rel, fn=qn, mut=bool(muts), ret=bool(ra), ev=(muts + ra)[:4]))
+            # inner functions (closures handed to the finite-difference / optimiser machinery): one row each
+            for (q, npar, nm, nr) in nested:
+                effects.append(dict(module=rel, fn=q, mut=bool(nm), ret=bool(nr), ev=(nm + nr)[:4]))
     out.append('def caches : List CacheInfo := [\n' + ',\n'.join(
         '  { module := %s, cache := %s, fn := %s, keyParams := %s, usedParams := %s, sufficient := %s, memo := %s }' % (
             json.dumps(c['module']), json.dumps(c['cache']), json.dumps(c['fn']), lstr(c['key']), lstr(c['used']), 'true' if c['sufficient'] else 'false',
